@@ -130,6 +130,8 @@ REPL = {
     "uint0": b"\x00", "nint": b"\x20", "bstr0": b"\x40", "bstr1": b"\x41\x00", "tstr1": b"\x61a", "arr0": b"\x80", "arr1": b"\x81\x00",
     "map0": b"\xa0", "map1": b"\xa1\x00\x00", "null": b"\xf6", "true": b"\xf5", "float": b"\xf9\x3e\x00", "hff": b"\x41\xff",
     "u64max": b"\x1b" + b"\xff" * 8, "tag107int": b"\xd8\x6b\x00",
+    "mapk1": b"\xa1\x01\x02", "mapkneg": b"\xa1\x20\x00", "mapktext": b"\xa2\x61a\x00\x61b\x01", "arrmap": b"\x82\xa1\x01\x02\xa0",
+    "undefined": b"\xf7", "simple32": b"\xf8\x20", "false": b"\xf4",
 }
 
 
@@ -365,6 +367,20 @@ def run(ctx: core.Check):
             n += 1
             mutants[n] = bytes(b)
             meta[n] = {"base": bi, "muts": "random-bytes"}
+    # chains of integrated dependency envelopes, each a byte string inside the previous one (the CBOR decoder's depth limit does not
+    # apply across byte strings): a minimal envelope whose member "#d" holds the next one
+    def chain(depth):
+        inner = b"\x40"
+        for _ in range(depth):
+            inner = (b"\xd8\x6b\xa3\x02" + cborx.dumps(cborx.dumps([cborx.dumps([-16, b"\x00" * 32])])) + b"\x03" + cborx.dumps(cborx.dumps({1: 1, 2: 0}))
+                     + cborx.dumps("#d") + cborx.dumps(inner))
+        return inner
+    for depth in ((10, 120, 340, 520) if ctx.quick else (10, 60, 120, 200, 300, 340, 400, 520, 800)):
+        c_ = chain(depth)
+        if len(c_) <= 65536:
+            n += 1
+            mutants[n] = c_
+            meta[n] = {"base": -1, "muts": f"dependency-chain-{depth}"}
     # bare cut-short heads and other tiny whole inputs (no envelope around them)
     tiny = [b""] + [bytes([b0]) + b"\x00" * z for b0 in range(256) for z in ((0, 1, 3, 7) if (b0 & 0x1F) >= 24 else (0,))]
     if ctx.quick:
